@@ -1,6 +1,6 @@
 """Build-system monitor library (DESIGN.md section 3): description model + generator, deterministic command helper
 (harness/bscmd.c) whose outputs are predicted in Python, sandbox with observable edits, build runner."""
-import json, os, random, shutil, subprocess, time, copy, stat
+import json, os, random, shutil, subprocess, time, copy, stat, threading
 import vlib
 
 MASK = (1 << 64) - 1
@@ -45,18 +45,20 @@ _bscmd = None
 
 
 def bscmd_path():
-    """Compiled once per check run; plain C, no sanitizer (it is the workload, not the subject)."""
+    """Compiled once per check run; plain C, no sanitizer (it is the workload, not the subject). Safe to call from several threads/processes."""
     global _bscmd
     if _bscmd:
         return _bscmd
     os.makedirs(vlib.HBIN, exist_ok=True)
     out = os.path.join(vlib.HBIN, "bscmd")
     src = os.path.join(vlib.VERIF, "harness", "bscmd.c")
-    if not os.path.exists(out) or os.stat(out).st_mtime < os.stat(src).st_mtime:
-        r = vlib.sh(["cc", "-O1", "-o", out + ".tmp%d" % os.getpid(), src])
-        if r.returncode != 0:
-            raise vlib.HarnessFailure("bscmd.c failed to compile: " + r.stdout)
-        os.rename(out + ".tmp%d" % os.getpid(), out)
+    with vlib._Lock(out + ".lock"):
+        if not os.path.exists(out) or os.stat(out).st_mtime < os.stat(src).st_mtime:
+            tmp = "%s.tmp%d.%d" % (out, os.getpid(), threading.get_ident())
+            r = vlib.sh(["cc", "-O1", "-o", tmp, src])
+            if r.returncode != 0:
+                raise vlib.HarnessFailure("bscmd.c failed to compile: " + r.stdout)
+            os.rename(tmp, out)
     _bscmd = out
     return out
 
